@@ -34,6 +34,16 @@ def gen_cases(tier, seed):
     for i, _ in enumerate(table_ids()):
         for v in range(0, 256):
             yield Case(2001, [i, v, 3], [], 'subfunction name in a derived table')
+    # the value handed over as an IntEnum member / instance of an int subclass (how applications name their own sessions, reset types ...)
+    for i, _ in enumerate(table_ids()):
+        for v in range(0, 256):
+            yield Case(2001, [i, v, 4], [], 'subfunction name of an int-subclass value')
+    for v in range(0, 256):
+        yield Case(2002, [0, v, 4], [], 'nrc name of an int-subclass value')
+        yield Case(2005, [0, v, 4], [], 'dtc format name of an int-subclass value')
+    for v in list(range(0, 0x200)) + list(range(0xF000, 0x10000)):
+        yield Case(2003, [0, v, 4], [], 'did name of an int-subclass value')
+        yield Case(2004, [0, v, 4], [], 'routine name of an int-subclass value')
     for v in range(0, 256):
         yield Case(2002, [0, v, 1], [], 'nrc name after other lookups')
         yield Case(2005, [0, v, 1], [], 'dtc format name after other lookups')
@@ -64,6 +74,10 @@ def derived(t):
     return _derived[t]
 
 
+class IntValue(int):
+    """an integer that is not the interpreter's cached small-int object (an enum.IntEnum member behaves the same)"""
+
+
 def m_ostr(f):
     try:
         return [0] + enc_opt(enc_str, f())
@@ -77,7 +91,9 @@ def impl(c):
     i, v = c.ints[:2]
     if len(c.ints) > 2 and c.ints[2] == 3:
         return enc_str(derived(_tables[i]).get_name(v))
-    if len(c.ints) > 2:
+    if len(c.ints) > 2 and c.ints[2] == 4:
+        v = IntValue(v)
+    elif len(c.ints) > 2:
         for t in _tables:
             t.get_name(v)
         for f in (ResponseCode.get_name, DataIdentifier.name_from_id, Routine.name_from_id, Dtc.Format.get_name):
@@ -126,6 +142,8 @@ def oracle(c, r):
     from udsoncan import DataIdentifier, Routine, Dtc
     from udsoncan.ResponseCode import ResponseCode
     i, v = c.ints[:2]
+    if len(c.ints) > 2 and c.ints[2] == 4:
+        v = IntValue(v)
     if c.entry == 2001:
         if not (0 <= v <= 255):
             return None
